@@ -13,6 +13,6 @@ CONSTANTS
   Active = {"r1"}
   Bin = FALSE
   Acts = {"write", "read", "readblock", "delete"}
-  Defects = {"overwrite", "refresh_skip"}
+  Defects = {"overwrite", "refresh_skip", "frac_ts"}
 VIEW view
 ACTION_CONSTRAINT Emit
